@@ -211,6 +211,9 @@ def run_property(modname, tier, seed, workers=None):
                     violations.append((os.path.join(rdir, fn), v))
     # 2. generated search
     ncases = spec.cases(tier)
+    if os.environ.get("RV_SCALE"):
+        # smoke-testing a tier with a fraction of its fixed work (never used by the registered commands)
+        ncases = max(16, int(ncases * float(os.environ["RV_SCALE"])))
     workers = workers or int(os.environ.get("RV_WORKERS", "16"))
     workers = max(1, min(workers, ncases))
     per = (ncases + workers - 1) // workers
